@@ -31,11 +31,15 @@ deriving Repr, DecidableEq, Inhabited
 def CtrState.init (bs B : Nat) : CtrState :=
   { lanes := List.replicate B (zeros bs), ecounter := zeros (B * bs), offset := B * bs }
 
+/-- the counter block a `set_counter` call denotes: short counters are left-padded, NULL is zero -/
+def counterBlock (bs : Nat) (counter : Option Bytes) (size : Nat) : Bytes :=
+  match counter with
+  | some c => padLeft bs (c.take size)
+  | none => zeros bs
+
 /-- `*_set_counter` after validation: left-pad, stagger lane `j` to `c + j`, reset the keystream -/
 def CtrState.setCounter (bs B : Nat) (st : CtrState) (counter : Option Bytes) (size : Nat) : CtrState :=
-  let block := match counter with
-    | some c => padLeft bs (c.take size)
-    | none => zeros bs
+  let block := counterBlock bs counter size
   { st with lanes := (List.range B).map (fun j => if j = 0 then block else incCounter bs j block), offset := B * bs, pending := 0 }
 
 /-- the `while (size > 0)` loop of `*_ctr_*_encrypt`; `fuel` bounds the iterations (each one
